@@ -1,6 +1,7 @@
 import F3.Spec.GraniteNet
 import F3.Props.C08
 import F3.Proofs.BridgeEx
+import F3.Proofs.ParticipantBridge
 /-!
 # C01 — Agreement
 
@@ -202,5 +203,43 @@ theorem agreement_model_nonvacuous : Nonempty (Network exTbl exF exW) ∧ exW 4 
   ⟨⟨exNet⟩, ex_network_decides.1, ex_network_decides.2.1⟩
 
 end Model
+
+/-! ## Agreement of the executable model driven through the participant API -/
+section ParticipantAPI
+open F3.Instance F3.Bridge
+
+/-- **Agreement, end to end for the model of the code, at the participant API.**  As `agreement_model`, but every
+honest committee member's execution is a sequence of `Participant.ReceiveMessage` / `ReceiveAlarm` calls
+(`HonestRunP`: `pstepWith`, what the correspondence driver replays against the real `gpbft.Participant`): messages
+arriving before the instance has begun are queued, the first alarm begins the instance and drains the queue through
+`instance.ReceiveMany` in an arbitrary sender order (a field of the run), late-binding rejects being dropped
+silently; every delivered message of this instance is valid (`MsgValid`), no call reports an error other than a
+refusal at the door (`okRunP`), and the member's votes in `W` are exactly its broadcasts. Then any two honest
+members that report a decision report the same value. -/
+theorem agreement_model_participant {t : Table} {F : Finset Pid} {W : Instance.Votes} (N : NetworkP t F W)
+    (p q : Pid) (hp : p ∈ (ids t).toFinset) (hpF : p ∉ F) (hq : q ∈ (ids t).toFinset) (hqF : q ∉ F) (dp dq : Just)
+    (hdp : (prun (N.runs p hp hpF).order (pinit (N.runs p hp hpF).cfg t (N.runs p hp hpF).input)
+      (N.runs p hp hpF).ops).1.inst.termination = some dp)
+    (hdq : (prun (N.runs q hq hqF).order (pinit (N.runs q hq hqF).cfg t (N.runs q hq hqF).input)
+      (N.runs q hq hqF).ops).1.inst.termination = some dq) :
+    dp.value = dq.value :=
+  model_agreementP N p q hp hpF hq hqF dp dq hdp hdq
+
+/-- The honest rules of Layer A are theorems about the executable model driven through the participant API. -/
+theorem model_satisfies_rules_participant {t : Table} {F : Finset Pid} {W : Instance.Votes} (N : NetworkP t F W) :
+    (world t F W).Rules := N.rules
+
+/-- Non-vacuity: the four-member network with member 4 Byzantine and equivocating in PREPARE, every honest member
+driven through the participant API with four messages queued before its instance begins (among them a PREPARE
+arriving before QUALITY and a late-binding reject); an honest member decides `[7, 8]`. -/
+theorem agreement_model_participant_nonvacuous :
+    Nonempty (NetworkP exTbl exF exW) ∧ exW 4 0 .prepare [7, 9] ∧ exW 4 0 .prepare [7, 8] ∧
+    (prun exOrder (pinit exCfg exTbl [7, 8]) (exPOps.take 4)).1.queue.length = 4 ∧
+    ∃ d, (prun (exNetP.runs 1 (by decide) (by decide)).order
+        (pinit (exNetP.runs 1 (by decide) (by decide)).cfg exTbl (exNetP.runs 1 (by decide) (by decide)).input)
+        (exNetP.runs 1 (by decide) (by decide)).ops).1.inst.termination = some d ∧ d.value = [7, 8] :=
+  ⟨⟨exNetP⟩, ex_networkP_decides.1, ex_networkP_decides.2.1, ex_queue_drained.1, ex_networkP_decides.2.2⟩
+
+end ParticipantAPI
 
 end F3.Props.C01
